@@ -234,7 +234,15 @@ def item_of(cases, names=None):
 def attr_of(c):
     # a getter the user replaces by a hand-written one (`edit` withholds the generated method): the handle still calls it by name
     extra = ["edit(live(imp(%s)))" % c["edit_getter"]] if c.get("edit_getter") else []
-    return gen_impl.actor_attr(c["lib"], None, debut=True, interact=c["interact"], extra=extra)
+    return gen_impl.actor_attr(c["lib"], None, debut=case_debut(c), interact=c["interact"], extra=extra)
+
+
+def case_debut(c):
+    """the `debut` option only adds the three built-in getters; without it the user writes the getters on the handle type: what is an
+    inter variable, what disappears from the handle signature and what is read per call must not depend on it (about a third of the
+    cases run without `debut`; a case that withholds a built-in getter by `edit` needs the option)"""
+    import zlib
+    return bool(c.get("edit_getter")) or zlib.crc32(c["sig"].encode()) % 3 != 0
 
 
 def corpus(rng, tier):
@@ -561,7 +569,7 @@ def run(rep):
     # ---- T-tie: wf_C14 on real expansions, the runtime theorem instantiated at them ----
     groups = {}
     for c in accepted:
-        groups.setdefault((c["lib"], c["interact"]), []).append(c)
+        groups.setdefault((c["lib"], c["interact"], case_debut(c)), []).append(c)
     bundles = []
     cap = 40 if rep.tier == "quick" else 160
     for key in sorted(groups):
@@ -573,10 +581,10 @@ def run(rep):
     bundles.sort(key=lambda b: -sum(p["kind"] in "GE" for c in b[1] for p in c["params"]))
     bundles = bundles[:cap]
     cfgs = []
-    for (lib, interact), g in bundles:
+    for (lib, interact, debut), g in bundles:
         names = ["m%d" % j for j in range(len(g))]
-        cfgs.append({"kind": "actor", "lib": lib, "attr": gen_impl.actor_attr(lib, None, debut=True, interact=interact), "item": item_of(g, names),
-                     "label": "bundle lib=%s interact=%s n=%d" % (lib, interact, len(g)), "cases": g, "names": names})
+        cfgs.append({"kind": "actor", "lib": lib, "attr": gen_impl.actor_attr(lib, None, debut=debut, interact=interact), "item": item_of(g, names),
+                     "label": "bundle lib=%s interact=%s debut=%s n=%d" % (lib, interact, debut, len(g)), "cases": g, "names": names})
     cfgs = inst.expand_configs(cfgs, tag="c14t")
     terms, owners = [], []
     for c in cfgs:
